@@ -25,6 +25,8 @@ HIER = [
     [[-1], [0], [-1], [1, 2]],
     [[-2], [0]],
     [[-1], [0], [1], [2]],
+    [[-1], [0, -2]],
+    [[-1], [-2, 0], [1]],
 ]
 CN = ('Ka', 'Kb', 'Kc', 'Kd')
 FORMS = ('same', 'from', 'attr', 'star')
@@ -236,14 +238,14 @@ def decode(h, m0, m1, m2, m3, extra):
 
 def check(h: int, m0: int, m1: int, m2: int, m3: int, extra: int, form: int, attr: int, via: int) -> bool:
     """
-    pre: 0 <= h <= 6
+    pre: 0 <= h <= 8
     pre: 0 <= m0 <= 10 and 0 <= m1 <= 10 and 0 <= m2 <= 10 and 0 <= m3 <= 10 and 0 <= extra <= 10
     pre: 0 <= form <= 3 and 0 <= attr <= 1 and 0 <= via <= 2
     post: _
     """
     PATHS[0] += 1
     from crosshair.tracers import NoTracing
-    h = _c(h, 0, 6)
+    h = _c(h, 0, 8)
     n = len(HIER[h])
     m0, m1, m2, m3 = _c(m0, 0, 10), _c(m1, 0, 10) if n > 1 else 10, _c(m2, 0, 10) if n > 2 else 10, _c(m3, 0, 10) if n > 3 else 10
     extra, form, attr, via = _c(extra, 0, 10), _c(form, 0, 3), _c(attr, 0, 1), _c(via, 0, 2)
